@@ -355,3 +355,38 @@ func looksLikeSubposition(t string) bool {
 	_, ok := cgNumber(t)
 	return ok
 }
+
+// CGFlat is one plain cost line of a callgrind document as C04 needs it.
+type CGFlat struct {
+	Fn, Fl, Ob string
+	Addr, Line uint64
+	Cost       int64
+}
+
+// CGEdge is one call with its inclusive cost.
+type CGEdge struct {
+	Fn, Cfn string
+	Cost    int64
+}
+
+// ReadCallgrindNumbers exposes the independent callgrind reader to other
+// checks: the plain cost lines and the calls, names resolved.
+func ReadCallgrindNumbers(b []byte) (flats []CGFlat, edges []CGEdge, ok bool) {
+	doc, err := readCallgrind(b)
+	if err != nil || doc == nil {
+		return nil, nil, false
+	}
+	for _, c := range doc.Costs {
+		if len(c.Sub) < 2 || len(c.Costs) < 1 {
+			return nil, nil, false
+		}
+		flats = append(flats, CGFlat{Fn: c.Fn, Fl: c.Fl, Ob: c.Ob, Addr: c.Sub[0], Line: c.Sub[1], Cost: c.Costs[0]})
+	}
+	for _, c := range doc.Calls {
+		if c.Src == nil || len(c.Src.Costs) < 1 {
+			return nil, nil, false
+		}
+		edges = append(edges, CGEdge{Fn: c.Fn, Cfn: c.Cfn, Cost: c.Src.Costs[0]})
+	}
+	return flats, edges, true
+}
